@@ -28,6 +28,10 @@ CHECKS = {
    text="spec/EfiVarFs.tla models the variable store at API and file-system grain; TLC checks the Register / ReadsLastWrite invariants under replace-on-write semantics (and, as a vacuity guard, that they fail under plain-overwrite semantics). Every API-grain history TLC generates (plain and signed writes of growing, shrinking, empty and prefix-related values, reads; exhaustive to depth 2 quick / 3 thorough, -simulate and seeded random histories beyond, a third on pre-populated stores) runs on the real testfs store; the recorded events are validated by TLC against spec/EfiVarFsTrace.tla (a read returns the identity of the last completed write).",
    note="Trusted: TLC, identification of read-back bytes by comparison with the concretised values and the harness's independent descriptor reader. Bounded universe: 3 variables (6 in random histories), 5 values.",
    technique="TLA+ register spec model-checked with TLC; TLC-generated histories replayed on the in-memory store; TLC trace validation"),
+ "C15": dict(level="fault_enumeration", ref="5/C15",
+   text="spec/DepFaults.tla states the fault contract (never success after a fault, only cleanup after the fault, a failed signing writes nothing, a failed image signing leaves no signature) and is model-checked by TLC over operation automata; for each real operation a fault-free run over fault-injecting crypto.Signer / afero.Fs / io.ReaderAt reveals the dependency-call sequence it issues, then every position k of that sequence is failed once (error, and short count for Write); recorded dependency calls and results are validated by TLC against spec/DepFaultsTrace.tla.",
+   note="Trusted: TLC, the fault-injecting dependency wrappers. One fault per run. Image operations use a synthetic image and the repository's test.pecoff(.signed). io.ReaderAt faults are errors only.",
+   technique="TLA+ fault contract; exhaustive single-fault enumeration over recorded dependency-call sequences; TLC trace validation"),
  "C17": dict(level="model_checking", ref="5/C17",
    text="spec/EfiConv.tla defines GUID text / big-endian / wire forms and UTF-16 encoding with the surrogate arithmetic; TLC checks the round-trip identities (GuidLossless, StringLossless) on every enumerated value and emits the expected nibbles, wire bytes and code units; the real conversions (Format, StringToGUID in both cases, GUIDToBytes, Bytes, WriteGUID, CmpEFIGUID, in-structure layout through SignatureData/SignatureList encode and decode, MarshalUtf16Var, ParseUtf16Var, Efistring) are compared with them case by case.",
    note="Trusted: TLC, the transcription of RFC 2781 / UEFI Appendix A in the spec. 2^128 GUIDs and all strings are sampled by boundary patterns (4032 GUIDs, 1588 strings, repeats to 4096+), not exhausted.",
